@@ -341,3 +341,50 @@ def node_calls(node):
 def always_raises(func_node, never_returns=None):
     g = CFG(func_node, never_returns)
     return not g.can_return_normally()
+
+
+def assigned_names(node):
+    """Names (re)bound by the CFG node itself."""
+    out = set()
+    a = node.ast
+    targets = []
+    if node.kind == 'stmt' and isinstance(a, ast.Assign):
+        targets = a.targets
+    elif node.kind == 'stmt' and isinstance(a, (ast.AugAssign,
+                                                ast.AnnAssign)):
+        targets = [a.target]
+    elif node.kind == 'for':
+        targets = [a.target]
+    elif node.kind == 'with':
+        targets = [i.optional_vars for i in a.items
+                   if i.optional_vars is not None]
+    elif node.kind == 'handler' and a.name:
+        out.add(a.name)
+    elif node.kind == 'def':
+        out.add(a.name)
+    for t in targets:
+        for n in ast.walk(t):
+            if isinstance(n, ast.Name) and isinstance(n.ctx, ast.Store):
+                out.add(n.id)
+    return out
+
+
+def reaching_defs(g, use_node, name):
+    """CFG nodes whose binding of `name` may reach `use_node`; the entry
+    node stands for 'the parameter / no local binding'."""
+    out = []
+    seen = set()
+    stack = [p for p, _ in use_node.pred]
+    while stack:
+        n = stack.pop()
+        if n.id in seen:
+            continue
+        seen.add(n.id)
+        if n is g.entry:
+            out.append(n)
+            continue
+        if name in assigned_names(n):
+            out.append(n)
+            continue
+        stack.extend(p for p, _ in n.pred)
+    return out
